@@ -1,8 +1,17 @@
 #!/usr/bin/env python3
 """Prints the prompt handed to an independent sub-agent that seeds a property-breaking change.
-usage: agent_prompt.py <property id> <worktree dir>   (only the property text goes in; nothing of /verif)"""
+usage: agent_prompt.py <property id> <worktree dir> [count] (only the property text goes in; nothing of /verif)
+With count=3 (second round) the prompt additionally asks for less obvious locations."""
 import json, sys
 pid, wt = sys.argv[1], sys.argv[2]
+count = int(sys.argv[3]) if len(sys.argv) > 3 else 2
+NUM = {2: 'TWO', 3: 'THREE'}[count]
+KS = '(1, 2)' if count == 2 else '(1, 2, 3)'
+EXTRA = '' if count == 2 else '''     Avoid the most obvious candidates (an off-by-one in a sampling constant, simply deleting a validity check): be
+     creative about WHERE the bug lives - construction code, counter packing, sentinel handling, a rarely taken branch,
+     conversion / collect paths, Clone / PartialEq / Default / serde attributes, size computations, iterator state,
+     interaction between two types - and about WHAT triggers it (a particular history, a particular alphabet or length
+     class, a particular build profile, a particular element type).\n'''
 for l in open('/verif/properties.jsonl'):
     p = json.loads(l)
     if p['id'] == pid:
@@ -21,7 +30,7 @@ Here is a semantic property the crate is supposed to satisfy:
   Statement: {p['statement']}
   Quantified over: {p['quantifier']['text']}
 
-Your task: produce TWO different, realistic changes to the crate's source (under {wt}/src) such that, for each change
+Your task: produce {NUM} different, realistic changes to the crate's source (under {wt}/src) such that, for each change
 taken alone:
   1. the crate still compiles and its whole existing test suite still passes
      (`cd {wt} && CARGO_NET_OFFLINE=true cargo test --workspace --no-fail-fast --offline` — unit tests AND doc tests);
@@ -33,11 +42,11 @@ taken alone:
      maintainer could plausibly introduce in a refactoring or 'optimisation' (off-by-one on a block/superblock/sample
      boundary, wrong counter in one branch, a cache or shortcut that is only wrong in a corner, a stale field, a
      validation that is slightly too weak or too strong, a size computation that rounds the wrong way ...).
-     The two changes must use different mechanisms and touch different code paths.
-  4. you provide a demonstration: a small Rust integration test file (using only the crate's public API and the
+     The changes must use different mechanisms and touch different code paths.
+{EXTRA}  4. you provide a demonstration: a small Rust integration test file (using only the crate's public API and the
      dependencies the crate already has) that FAILS with your change applied and PASSES on the unchanged worktree.
 
-Procedure for each change k in (1, 2):
+Procedure for each change k in {KS}:
   - read the relevant source first; design the change; apply it in {wt}/src;
   - run the full test suite as in (1) and make sure everything passes (if not, pick another change);
   - write the demonstration as {wt}/tests/demo_{pid}_k.rs and run it:
@@ -50,5 +59,5 @@ Procedure for each change k in (1, 2):
 Keep `cargo` builds inside the worktree (default target dir {wt}/target). Do not leave the source modified at the end
 (the worktree must be clean except for OUT/ and tests/demo_*.rs). Do not weaken, delete or edit existing tests.
 
-Finish with a short report: for each of the two changes one paragraph (what, where, what triggers it), and confirm the
+Finish with a short report: for each of the changes one paragraph (what, where, what triggers it), and confirm the
 three runs you did (suite passes with change; demo fails with change; demo passes without).""")
